@@ -1,6 +1,108 @@
 import Infretis.Model.Proto
-open Infretis.Proto
+import Infretis.Model.Readers
+open Infretis Infretis.Proto Infretis.Readers
 
-def handle (_toks : List String) : String := "bad-op"
+/-!
+Line protocol of the C13 driver.
+
+  xyz  <asIs|repaired> <hex content> <K> <n c₁ … cₙ> × K     polls of the xyz reader model
+  lmp  <hex content> <K> <n c₁ … cₙ> × K                      polls of the lammpstrj reader model
+  xspec <m len₁ … len_m> <K> <n c₁ … cₙ> × K                  `exactStages` on frame indices
+  lspec <m len₁ … len_m> <K> <n c₁ … cₙ> × K                  `lmpStages` on frame indices
+
+Answer: the K results joined by " # ".  One result = stages joined by " | "; one stage =
+`<new position>:<frames joined by ;>`; a raised exception ends the result with `!<kind>`.
+-/
+
+def showErr : Err → String
+  | .value => "value" | .zerodiv => "zerodiv" | .index => "index"
+
+def showTok (t : Tok) : String := String.ofList t
+
+def showRows (rows : List (List Tok)) : String :=
+  "/".intercalate (rows.map (fun r => ",".intercalate (r.map showTok)))
+
+def showX (f : XFrame) : String := showRows f
+def showL (f : LFrame) : String := showRows f.1 ++ "@" ++ showRows f.2
+
+def runPolls {F : Type} (reader : List Char → Nat → Except Err (List F × Nat)) (showF : F → String)
+    (content : List Char) : List Nat → Nat → List String
+  | [], _ => []
+  | c :: cs, pos =>
+    match reader (content.take c) pos with
+    | .error e => ["!" ++ showErr e]
+    | .ok (fs, pos') =>
+      (toString pos' ++ ":" ++ ";".intercalate (fs.map showF)) :: runPolls reader showF content cs pos'
+
+/-- the same through `pollAll` (the function the theorems speak about), frames only -/
+def viaPollAll {F : Type} (reader : List Char → Nat → Except Err (List F × Nat)) (showF : F → String)
+    (content : List Char) (cuts : List Nat) : String :=
+  match pollAll reader content cuts 0 with
+  | .error e => "!" ++ showErr e
+  | .ok stages => " | ".intercalate (stages.map (fun fs => ";".intercalate (fs.map showF)))
+
+def stripPos (s : String) : String :=
+  if s.startsWith "!" then s else ":".intercalate ((s.splitOn ":").drop 1)
+
+def result {F : Type} (reader : List Char → Nat → Except Err (List F × Nat)) (showF : F → String)
+    (content : List Char) (cuts : List Nat) : String :=
+  let tr := runPolls reader showF content cuts 0
+  let a := " | ".intercalate tr
+  -- consistency of the trace with `pollAll`
+  let viaTrace :=
+    match tr.getLast? with
+    | some l => if l.startsWith "!" then l else " | ".intercalate (tr.map stripPos)
+    | none => ""
+  if viaTrace = viaPollAll reader showF content cuts then a else "INCONSISTENT " ++ a
+
+/-- parse K length-prefixed cut lists -/
+def takeSeqs : Nat → List String → Option (List (List Nat))
+  | 0, [] => some []
+  | 0, _ => none
+  | k + 1, toks =>
+    match takeList parseNat? toks with
+    | none => none
+    | some (cs, rest) => (takeSeqs k rest).map (fun r => cs :: r)
+
+def content? (h : String) : Option (List Char) :=
+  (unhex h).map (fun bs => bs.map (fun b => Char.ofNat b.toNat))
+
+def showIdx (st : List (List Nat)) : String :=
+  " | ".intercalate (st.map (fun fs => ",".intercalate (fs.map toString)))
+
+def handle (toks : List String) : String :=
+  match toks with
+  | "xyz" :: v :: h :: k :: rest =>
+    let var : Option Variant := if v = "asIs" then some .asIs else if v = "repaired" then some .repaired else none
+    match var, content? h, parseNat? k with
+    | some var, some content, some k =>
+      match takeSeqs k rest with
+      | some seqs => " # ".intercalate (seqs.map (result (xyzReader var) showX content))
+      | none => "bad-op"
+    | _, _, _ => "bad-op"
+  | "lmp" :: h :: k :: rest =>
+    match content? h, parseNat? k with
+    | some content, some k =>
+      match takeSeqs k rest with
+      | some seqs => " # ".intercalate (seqs.map (result lmpReader showL content))
+      | none => "bad-op"
+    | _, _ => "bad-op"
+  | "xspec" :: rest =>
+    match takeList parseNat? rest with
+    | some (lens, k :: rest) =>
+      match (parseNat? k).bind (fun k => takeSeqs k rest) with
+      | some seqs =>
+        " # ".intercalate (seqs.map (fun cuts => showIdx (exactStages lens (List.range lens.length) cuts 0)))
+      | none => "bad-op"
+    | _ => "bad-op"
+  | "lspec" :: rest =>
+    match takeList parseNat? rest with
+    | some (lens, k :: rest) =>
+      match (parseNat? k).bind (fun k => takeSeqs k rest) with
+      | some seqs =>
+        " # ".intercalate (seqs.map (fun cuts => showIdx (lmpStages lens (List.range lens.length) cuts 0 false)))
+      | none => "bad-op"
+    | _ => "bad-op"
+  | _ => "bad-op"
 
 def main : IO Unit := mainWith handle
